@@ -45,7 +45,21 @@ def _sig_sends(body):
     for bi, t, p in core.calls_to(body, lambda p: "watch::Sender" in p and (p.endswith("::send") or p.endswith("::send_replace") or p.endswith("::send_modify") or p.endswith("::send_if_modified"))):
         a0 = body.term_operand(t["a"][0])
         if _is_sig(a0):
-            st = _state_of(body.term_operand(t["a"][1])) if len(t["a"]) > 1 else None
+            v = body.term_operand(t["a"][1]) if len(t["a"]) > 1 else None
+            st = _state_of(v) if v is not None else None
+            # deferred commit: the arm only computes `next_state = Some(X)` / None and a later, common statement
+            # sends it. The transition then belongs to the place where the value was chosen.
+            if st is None and v is not None and v[0] == "field" and v[1][0] == "variant" and v[1][2] == "Some" \
+                    and v[1][1][0] == "var" and len(v[1][1]) > 2:
+                l = v[1][1][2]
+                chosen = []
+                for d in body.defs().get(l, []):
+                    dt = body._term_def(d, 0, (l,))
+                    if dt[0] == "agg" and dt[2] == "Some" and _state_of(dt):
+                        chosen.append((d[1], _state_of(dt)))
+                if chosen:
+                    out += chosen
+                    continue
             out.append((bi, st))
     return out
 
